@@ -28,7 +28,7 @@ ASSUMPTIONS = [
 ]
 REQUIRED_CLASSES = ["history:insert_before_span_of_empty_tier", "history:collision_by_nanoseconds", "history:delete_absent_same_time", "history:collision_merge_many", "history:collision_replace", "history:delete_absent",
                     "history:insert_outside_span", "history:point_collision", "history:removed_entry_has_close_twin",
-                    "history:point_one_ulp_beside_existing"]
+                    "history:point_one_ulp_beside_existing", "history:sticks_out_of_span_by_one_ulp"]
 
 
 class Model:
@@ -127,6 +127,16 @@ def run_history(case):
                     entry = [t if t >= 0 else e0[0], entry[-1]]
                     if t != e0[0]:
                         classes.add("point_one_ulp_beside_existing")
+                what = f"step {k} {op} -> entry {entry}"
+            elif op.get("span_ulp") == "max":
+                hi_ = math.nextafter(model.maxT, math.inf)
+                entry = [min(entry[0], model.maxT - 0.25), hi_, entry[-1]] if model.is_int else [hi_, entry[-1]]
+                classes.add("sticks_out_of_span_by_one_ulp")
+                what = f"step {k} {op} -> entry {entry}"
+            elif op.get("span_ulp") == "min" and model.minT > 0:
+                lo_ = math.nextafter(model.minT, -math.inf)
+                entry = [lo_, max(entry[1], model.minT + 0.25), entry[-1]] if model.is_int else [lo_, entry[-1]]
+                classes.add("sticks_out_of_span_by_one_ulp")
                 what = f"step {k} {op} -> entry {entry}"
             form = op.get("form", "obj")
             if form == "obj":
@@ -293,6 +303,9 @@ def histories(draw):
                 # placed relative to an entry the tier holds at that step (from the end: that is where the twins are):
                 # exactly on it, or one unit in the last place beside it (which is a different time)
                 ops[-1].update(near_sel=draw(st.integers(0, 3)), near_var=draw(st.sampled_from([0, 0, 1, 2])))
+            elif style == "dec" and draw(st.integers(0, 7)) == 0:
+                # the new entry sticks out of the span the tier has at that step by one unit in the last place
+                ops[-1].update(span_ulp=draw(st.sampled_from(["max", "max", "min"])))
         else:
             ops.append({"op": "delete", "sel": draw(st.integers(0, 7)),
                         "absent": draw(st.sampled_from([False, False, False, True, "same_time"]))})
